@@ -216,7 +216,13 @@ SPECIALS = ["\ufeff", "\u2028", "\u2029", "\x85", "\x0b", "\x0c", "\x1c", "\x1d"
             # escape sequences of neighbouring syntaxes (RFC 6868 carets, URL and quoted-printable, C and Python escapes, entities,
             # format directives): in a TEXT value they are plain characters
             "^n", "^^", "^'", "^", "O(2^n)", "^N", "%0A", "%0D%0A", "%5E", "%25", "=0D=0A", "=\r\n", "\\t", "\\0", "\\x41", "\\u0041", "\\'", '\\"',
-            "&amp;", "&#10;", "&lt;", "{0}", "%s", "%(a)s", "$1", "\\1", "\\g<0>", "${x}"]
+            "&amp;", "&#10;", "&lt;", "{0}", "%s", "%(a)s", "$1", "\\1", "\\g<0>", "${x}",
+            # the percent escapes of RC-B in lower and mixed case (ordinary URL-encoded text), double encoding, other codes
+            "%2c", "%3a", "%3b", "%5c", "q=is%3apr+is%3amerged", "%2f", "%253A", "%3a%2c", "%22", "%22exact%20phrase%22",
+            # code points a 'cannot occur in text' placeholder scheme might pick: noncharacters, private use, replacement and object
+            # replacement characters, C0/C1 controls
+            "\ufdd0", "\ufdd1", "\ufdef", "\U0001fffe", "\U0001ffff", "\U0010fffe", "\ue000", "\uf8ff", "\U000f0000", "\ufffc", "\ufffd",
+            "\x01", "\x02", "\x03", "\x1a", "\x1b", "\x1f", "\x80", "\x9f", "\u2060", "\U000e0001"]
 
 
 def _special_cases():
